@@ -85,6 +85,15 @@ type absPtr struct {
 }
 
 type evaluator struct {
+	// effectsOnly: the function followed is looked at for what it does on the way (calls, stores); a result of the
+	// outermost function that cannot be evaluated does not fail the walk
+	effectsOnly bool
+	// globals, when set, holds what the walk stored into package-level variables (loads of them are then read
+	// where they stand, and see those stores)
+	globals map[*ssa.Global]interface{}
+	// maxDepth, when set, replaces the default bound (40) on the depth of one expression: a text built by a
+	// long chain of concatenations is that deep
+	maxDepth int
 	leaf     leafX
 	inline   func(callee *ssa.Function) bool // which library callees may be evaluated inline (loop-free bodies only)
 	steps    int
@@ -195,7 +204,7 @@ func evalSSA(p *cfgPath, v ssa.Value, leaf leafFn, depth int) (interface{}, bool
 }
 
 func (ev *evaluator) eval(fr *evalFrame, v ssa.Value, depth int) (interface{}, bool) {
-	if depth > 40 {
+	if depth > 40 && (ev.maxDepth == 0 || depth > ev.maxDepth) {
 		return nil, false
 	}
 	v = fr.resolve(v)
@@ -210,6 +219,16 @@ func (ev *evaluator) eval(fr *evalFrame, v ssa.Value, depth int) (interface{}, b
 	if ld, ok := v.(*ssa.UnOp); ok && ld.Op == token.MUL && fr.mem != nil {
 		if fa, ok := ld.X.(*ssa.FieldAddr); ok {
 			if x, ok := fr.mem[memKey{fr.memBase(fa.X), fa.Field}]; ok {
+				if _, unknown := x.(unknownValue); unknown {
+					return nil, false
+				}
+				return x, true
+			}
+		}
+	}
+	if ld, ok := v.(*ssa.UnOp); ok && ld.Op == token.MUL && ev.globals != nil {
+		if g, isGlobal := ld.X.(*ssa.Global); isGlobal {
+			if x, ok := ev.globals[g]; ok {
 				if _, unknown := x.(unknownValue); unknown {
 					return nil, false
 				}
@@ -265,6 +284,9 @@ func (ev *evaluator) eval(fr *evalFrame, v ssa.Value, depth int) (interface{}, b
 		return nil, false
 	case *ssa.Const:
 		if x.Value == nil {
+			if _, isPtr := x.Type().Underlying().(*types.Pointer); isPtr {
+				return absPtr{"nil", true}, true // the nil pointer
+			}
 			return nil, false
 		}
 		switch x.Value.Kind() {
@@ -831,6 +853,16 @@ func (ev *evaluator) eval(fr *evalFrame, v ssa.Value, depth int) (interface{}, b
 			if n, ok := localLiteralLen(x.Common().Args[0]); ok {
 				return n, true
 			}
+			// a slice made here with a length that can be evaluated (make([]T, n)), not re-sliced since
+			if ofr, ov := fr.origin(x.Common().Args[0]); ov != nil {
+				if mk, isMk := ov.(*ssa.MakeSlice); isMk {
+					if n, ok := ev.eval(ofr, mk.Len, depth+1); ok {
+						if k, isI := n.(int64); isI && k >= 0 {
+							return k, true
+						}
+					}
+				}
+			}
 			if _, isSl := x.Common().Args[0].Type().Underlying().(*types.Slice); isSl {
 				// a slice parameter of an inlined helper: the caller's literal, or no variadic arguments at all
 				if ofr, ov := fr.origin(x.Common().Args[0]); ofr != fr {
@@ -1066,11 +1098,28 @@ func (ev *evaluator) runFrame(fr *evalFrame, start *ssa.BasicBlock, stop func(b 
 						if fr.vals == nil {
 							fr.vals = map[ssa.Value]interface{}{}
 						}
+						delete(fr.vals, x) // what an earlier pass of a loop saw here
 						if v, ok := ev.eval(fr, x, 0); ok {
 							fr.vals[x] = v
 						} else {
 							fr.vals[x] = unknownValue{}
 						}
+					} else if _, isGlobal := x.X.(*ssa.Global); isGlobal && ev.globals != nil {
+						// a package-level variable the walk may store to: read where the load stands
+						if fr.vals == nil {
+							fr.vals = map[ssa.Value]interface{}{}
+						}
+						delete(fr.vals, x)
+						if v, ok := ev.eval(fr, x, 0); ok {
+							fr.vals[x] = v
+						}
+					}
+				}
+			case *ssa.Alloc:
+				// a variable declared inside a loop is a new, zero object every time the walk passes its declaration
+				for k := range fr.mem {
+					if k.base == ssa.Value(x) {
+						delete(fr.mem, k)
 					}
 				}
 			case *ssa.Call:
@@ -1078,6 +1127,20 @@ func (ev *evaluator) runFrame(fr *evalFrame, start *ssa.BasicBlock, stop func(b 
 					// a statement call of a helper that can panic (a validation helper) is walked for that outcome
 					callee := x.Common().StaticCallee()
 					if refs := x.Referrers(); callee != nil && (refs == nil || len(*refs) == 0) && ev.inline != nil && callee.Blocks != nil && ev.inline(callee) && hasPanicBlock(callee) {
+						if _, handled := ev.leaf(fr, x); !handled {
+							if _, outcome := ev.runCallee(callee, fr, x); outcome == "panic" {
+								return nil, "panic"
+							} else if outcome != "return" {
+								ev.setFail("statement call not walkable: " + fname(callee))
+								return nil, "fail"
+							}
+						}
+					}
+				}
+				if ev.visit == nil && ev.globals != nil {
+					// the walk's stores to package-level variables are followed: so are the helpers called for them
+					callee := x.Common().StaticCallee()
+					if refs := x.Referrers(); callee != nil && (refs == nil || len(*refs) == 0) && ev.inline != nil && callee.Blocks != nil && ev.inline(callee) && !hasPanicBlock(callee) {
 						if _, handled := ev.leaf(fr, x); !handled {
 							if _, outcome := ev.runCallee(callee, fr, x); outcome == "panic" {
 								return nil, "panic"
@@ -1112,6 +1175,13 @@ func (ev *evaluator) runFrame(fr *evalFrame, start *ssa.BasicBlock, stop func(b 
 				if ev.onStore != nil {
 					sv, sok := ev.eval(fr, x.Val, 0)
 					ev.onStore(fr, x, sv, sok)
+				}
+				if g, isGlobal := x.Addr.(*ssa.Global); isGlobal && ev.globals != nil {
+					if v, ok := ev.eval(fr, x.Val, 0); ok {
+						ev.globals[g] = v
+					} else {
+						ev.globals[g] = unknownValue{}
+					}
 				}
 				if fa, isField := x.Addr.(*ssa.FieldAddr); isField {
 					if fr.mem == nil {
@@ -1215,7 +1285,9 @@ func (ev *evaluator) runFrame(fr *evalFrame, start *ssa.BasicBlock, stop func(b 
 				if !ok && ev.panicked {
 					return nil, "panic"
 				}
-				if !ok {
+				if !ok && ev.effectsOnly && fr.parent == nil {
+					v = unknownValue{} // the caller looks at what the walk did, not at what it returns
+				} else if !ok {
 					ev.setFail("returned value not evaluable in " + fname(fr.fn) + ": " + res.String())
 					return nil, "fail"
 				}
